@@ -50,8 +50,8 @@ func init() {
 		DesignRef: "DESIGN.md §3 SA, §4 C06",
 	})
 	property(&Property{
-		ID:    "C13",
-		Rules: []string{"SX-nl-schema", "SX-nl-enum", "SX-sp-schema", "SX-sp-enum", "NC-1"},
+		ID:      "C13",
+		Rules:   []string{"SX-nl-schema", "SX-nl-enum", "SX-sp-schema", "SX-sp-enum", "NC-1"},
 		Explain: "Over the automaton extracted from the schema scanner and the enum-rule scanner (abstract interpretation of Next(), every reachable abstract state up to the stack bound / node cap): LF and CR have identical effect in every state (verdict, events with spans, successor state), so LF, CR and CRLF spellings scan alike; space and tab have identical effect in every state outside content states (string bodies, annotation/comment text, bare rule names — listed with reasons), so indentation style does not change the scan. NC-1: every comparison of a lexeme's text with a rule name (enum, type, or, the names in the rule constructor table) is made on the unquoted text, so quoted and bare rule names are equivalent.",
 		Assume: []string{
 			"comment placement, inline versus multi-line annotation equivalence, quoted versus bare rule names, rule order and escape normalisation are not decided by these rules",
@@ -63,9 +63,9 @@ func init() {
 		DesignRef: "DESIGN.md §3 SA-5, §4 C13",
 	})
 	property(&Property{
-		ID:    "C17",
-		Rules: []string{"SX-pos-json", "SX-pos-schema", "SX-pos-enum", "LB-render"},
-		Explain: "Over the automata extracted from the three scanners: every rejecting transition (any byte in any reachable abstract state, and end of input) produces a DocumentError on which SetIndex was called and whose index is the offset of the byte just consumed (the last byte of the input when it ends early) — the position is symbolic in the model, so this holds for all inputs reaching the state. LB-render: the renderer stays inside the file content — preparation() brings a position outside the content back inside it, every renderer method that indexes the content first returns on empty content and calls preparation() (dominance), the line helpers are only called after it, and the count given to strings.Repeat is provably non-negative.",
+		ID:      "C17",
+		Rules:   []string{"SX-pos-json", "SX-pos-schema", "SX-pos-enum", "LB-render", "XF-render"},
+		Explain: "Over the automata extracted from the three scanners: every rejecting transition (any byte in any reachable abstract state, and end of input) produces a DocumentError on which SetIndex was called and whose index is the offset of the byte just consumed (the last byte of the input when it ends early) — the position is symbolic in the model, so this holds for all inputs reaching the state. LB-render: the renderer stays inside the file content — preparation() brings a position outside the content back inside it, every renderer method that indexes the content first returns on empty content and calls preparation() (dominance), the line helpers are only called after it, and the count given to strings.Repeat is provably non-negative. XF-render: no panic (explicit, or an index/slice expression outside the recognised guards and the reviewed in-range table, which is keyed by the operand expressions) can escape an exported function of package errors.",
 		Assume: []string{
 			"that the rejecting byte is the *first* byte that cannot continue the text follows from C05's language equivalence for JSON documents only",
 			"validator/loader error positions, and that the rendered line number / line text / caret column are the right ones (rather than merely safe to compute), are not covered by these rules",
@@ -76,8 +76,8 @@ func init() {
 		DesignRef: "DESIGN.md §3 PS-1, §4 C17",
 	})
 	property(&Property{
-		ID:    "C19",
-		Rules: []string{"OM-model", "OM-lock"},
+		ID:      "C19",
+		Rules:   []string{"OM-model", "OM-lock"},
 		Explain: "Every type with the generated ordered-map shape (found structurally: data map, order slice, mx RWMutex; three today) is checked against a reference insertion-ordered map written from the property text. The methods' SSA is interpreted abstractly on every reachable implementation state over a universe of three keys and two values (keys are only compared for equality, values only copied, so this is every distinguishable case of one operation); callbacks are opaque functions whose verdicts are forked atoms. For each state x method x argument x callback valuation: return value, exact sequence of callback invocations (every entry exactly once, in insertion order), and the successor state (order duplicate-free, same key set as data, equal to the reference's) must agree; since every operation from every reachable state agrees including the successor state, every operation sequence agrees by induction. OM-lock: in every interpreted run m.mx is held around each access to data/order (write lock when the state changes) and released on every exit.",
 		Assume: []string{
 			"MarshalJSON: the iteration order and the values passed to json.Marshal are compared, not the produced bytes",
@@ -93,8 +93,8 @@ func init() {
 	const tableTechnique = "static analysis: decision tables extracted by finite-domain abstract interpretation of go/ssa (atoms: presence of rules, members of Go enums, orderings of opaque numbers, boolean flags) compared with the cells the property pins down"
 	const tableLevel = "Each table is a complete decision, over every valuation of its finite atoms, of one structural clause of the property on the current tree; cells the statement does not determine are don't-care. Necessary conditions of the behavioural statement, not the statement as a whole."
 	property(&Property{
-		ID:    "C01",
-		Rules: []string{"T7", "T8", "TA", "T-object", "T-array", "T-tree", "T-list", "T-any", "T11"},
+		ID:      "C01",
+		Rules:   []string{"T7", "T8", "TA", "T-object", "T-array", "T-tree", "T-list", "T-any", "T11"},
 		Explain: "T7: the JSON-kind compatibility decision of a scalar document value against a scalar example node (same kind | integer for float | null only where nullable is present; skipped only under an enum rule), extracted from checkNotAnEnum for every document kind x example kind x presence of nullable/enum. T8: required-key registration in the compiler — a property becomes required iff it is not optional (optional absent and keys not optional by default, or optional:false); optional on a non-property is rejected; the registered key is the node's own. TA: ArrayNode.Child selects example element min(i, len-1) and rejects on an empty example array, for all orderings of i against len. T-object: the object validator per lexical event — a key removes exactly itself from the keys still owed, the object may end only when nothing is owed, a key the example names is validated against that property, an unknown key goes to key shortcuts, then additionalProperties, else is rejected at the key. T-array: an item is checked against the example element at the running index, which advances by one; array-end gives the item count to every item-count rule. T-tree: the live-candidate bookkeeping of Tree.FeedLeaves for 1..3 candidates and all per-candidate outcomes (reject iff all failed; failed ones dropped; completed ones step back to their parent; children spliced in). T-any/T11: type any swallows exactly one value by depth counting, IsOpening classifies the JSON events correctly.",
 		Assume: []string{
 			"each table decides one step (one lexical event, one call) for all valuations of its atoms; the composition of steps over a whole document (required-key dynamics across nested objects, duplicate keys, property order) is not decided",
@@ -105,8 +105,8 @@ func init() {
 		DesignRef: "DESIGN.md §3 PE T7/T8, §4 C01",
 	})
 	property(&Property{
-		ID:    "C02",
-		Rules: []string{"T3", "T4", "T6", "T9", "T14", "T-cmp", "T-enum"},
+		ID:      "C02",
+		Rules:   []string{"T3", "T4", "T6", "T9", "T14", "T-cmp", "T-enum"},
 		Explain: "T3: Min/Max.Validate accept a probe iff probe >= min (> when exclusive) / probe <= max (< when exclusive) for all orderings and flag values, the probe being the parsed document number and the bound the rule's own number (exact comparison Number.Cmp is an ordering atom; the five comparison helpers are interpreted). T4: minLength/maxLength compare the length of the decoded string, minItems/maxItems the child count, precision the number of fractional digits of the parsed number, with the right comparator for every ordering. T6: a true exclusiveMinimum/Maximum makes exactly the matching bound exclusive, a false one is inert, the helper rule is removed. T9: nullable:false and const:false are removed by the compiler's filter and nothing else is; Const.Validate is inert when false and compares with the example when true. T14: ValidateLiteralValue runs every literal rule of the node exactly once on the document literal, except that a null admitted by nullable:true is accepted without running any other rule.",
 		Assume: []string{
 			"correctness of Number.Cmp's digit arithmetic, of string decoding, and of the regex/e-mail/URI/UUID/date predicates (standard library) is not decided",
@@ -118,8 +118,8 @@ func init() {
 		DesignRef: "DESIGN.md §3 PE T3/T4/T6/T9/T14, §4 C02",
 	})
 	property(&Property{
-		ID:    "C08",
-		Rules: []string{"T1", "T2", "T5", "T6", "T9", "OM-model"},
+		ID:      "C08",
+		Rules:   []string{"T1", "T2", "T5", "T6", "T9", "OM-model"},
 		Explain: "T1: the applicability matrix — IsJsonTypeCompatible of every constraint type evaluated on every JSON kind equals the matrix the property states (numeric rules on numbers, precision on float, length/regex/format rules on strings, item counts on arrays, additionalProperties/allOf on objects). T2: every rule name builds the constraint of that name, unknown names are rejected. T5: paired bounds are accepted iff min<=max (strictly when either is exclusive), minLength<=maxLength, minItems<=maxItems. T6: exclusive flags without their bound are rejected. T9 + OM-model: the false-rule filter removes exactly nullable:false/const:false, and the ordered map's Filter visits every entry exactly once whatever is removed — the source of the order dependence named in the property.",
 		Assume: []string{
 			"companion-rule exclusivity counts (or / enum / any / type references with foreign rules), duplicate-rule detection and order independence beyond the filter are not decided",
@@ -130,8 +130,8 @@ func init() {
 		DesignRef: "DESIGN.md §3 PE T1/T2/T5/T6/T9, OM, §4 C08",
 	})
 	property(&Property{
-		ID:    "C10",
-		Rules: []string{"SA-N", "FL-1", "FL-2", "EE-1", "T3", "T-cmp"},
+		ID:      "C10",
+		Rules:   []string{"SA-N", "FL-1", "FL-2", "EE-1", "T3", "T-cmp"},
 		Explain: "SA-N: the automaton of the numeral recogniser behind NewNumber (state functions interpreted abstractly, counters abstracted) is compared by product construction with the RFC 8259 number automaton over all 256 bytes in every reachable state pair, including where a numeral may end. FL-1: no library function holds a floating-point value or calls strconv float conversions/math/big (the only float helper, Number.ToFloat, has no library caller). T3: bounds are compared only through the exact comparison (Number.Cmp as an ordering atom) with the correct comparator.",
 		Assume: []string{
 			"correctness of the digit-string comparison and of exponent folding/zero trimming (arithmetic over unbounded digit strings), including negative zero, is not decided",
@@ -142,8 +142,8 @@ func init() {
 		DesignRef: "DESIGN.md §3 SA-3/FL-1/T3, §4 C10",
 	})
 	property(&Property{
-		ID:    "C16",
-		Rules: []string{"OR-1", "T12", "T-ast"},
+		ID:      "C16",
+		Rules:   []string{"OR-1", "T12", "T-ast"},
 		Explain: "OR-1: inside the once-only loader the call that builds the AST dominates loader.CompileBasic, load() dominates CompileAllOf/AddUnnamedTypes/the checkers in the once-only compiler, and GetAST returns the field the built tree is stored to — the AST mirrors the text because it is taken before any compilation step rewrites or deletes constraints. T12: the declared-or-inferred schema type of a node, judged on all 16 combinations of the indicators enum/or/type/precision and every JSON kind: enum => enum, or => mixed, type => its value, precision alone => decimal, none => the JSON kind.",
 		Assume: []string{
 			"field-by-field content of AST nodes, rule order and nested items, comment attachment and the generated/manual marking are not decided",
@@ -154,8 +154,8 @@ func init() {
 		DesignRef: "DESIGN.md §3 OR-1/T12, §4 C16",
 	})
 	property(&Property{
-		ID:    "C11",
-		Rules: []string{"MO", "AL-1", "PL-1", "PL-2", "PL-3", "PL-4"},
+		ID:      "C11",
+		Rules:   []string{"MO", "AL-1", "PL-1", "PL-2", "PL-3", "PL-4"},
 		Explain: "MO: every range over a Go map in the library (inventory on each run) is order-insensitive by construction (the body only inserts/deletes entries keyed by the iteration key, counts, calls functions that can neither panic nor write shared memory — decided by an effect summary over the call graph — or collects keys that are sorted before use) or is in the reviewed table with the reason why the order cannot reach a verdict, error code, position, AST or example; a reviewed loop whose exits/writes/effectful calls change is reported again. PL-1: no alias of a pooled buffer's storage is returned, stored or captured by a function that puts the buffer back (the Example() slice must not be overwritten by later calls). PL-2: every field of the pooled loader is assigned in reset(). PL-3: json.Document rewinds before and after Check/Len.",
 		Assume: []string{
 			"history independence beyond the enumerated once/pool/rewind objects and stability of returned AST values are not decided",
@@ -167,8 +167,8 @@ func init() {
 		DesignRef: "DESIGN.md §3 MO/PL, §4 C11",
 	})
 	property(&Property{
-		ID:    "C12",
-		Rules: []string{"SW-1", "SW-3", "AL-1", "PL-1", "PL-4", "OM-lock"},
+		ID:      "C12",
+		Rules:   []string{"SW-1", "SW-3", "AL-1", "PL-1", "PL-4", "OM-lock"},
 		Explain: "SW-1: no function reachable from (*Schema).validate or (*exampleBuilder).Build (VTA call graph; callbacks accounted at the call sites of higher-order helpers) stores to a field, slice element or map of a schema / constraint / AST type or to a package variable, except into objects it has just allocated — validation and example building only read the shared compiled schema. PL-1: the pooled example buffer's storage does not escape (the concurrent-Example race). OM-lock: the ordered maps hold their RWMutex around every access.",
 		Assume: []string{
 			"compile-time sharing of added types between root schemas (in-place allOf expansion of an added type used by two roots) is NOT covered by these rules — a known weakness of the pinned tree that the property names",
@@ -180,8 +180,8 @@ func init() {
 		DesignRef: "DESIGN.md §3 SW/PL/OM, §4 C12",
 	})
 	property(&Property{
-		ID:    "C15",
-		Rules: []string{"EX-shape", "PL-1"},
+		ID:      "C15",
+		Rules:   []string{"EX-shape", "PL-1"},
 		Explain: "EX-shape: the object and array example builders are interpreted abstractly for containers with 0..3 children, every child either emitted or omitted (recursion cut-off): the recorded sequence of buffer writes must be an opening bracket, the emitted elements in order exactly once with exactly one separator between two emitted elements and none dangling, and a closing bracket; object keys must be written from their source token or through an encoder, never from the decoded key text. PL-1: the returned bytes do not alias the pooled buffer.",
 		Assume: []string{
 			"that the emitted value validates against its schema, the choice among or-alternatives and the recursion cut-off depth are not decided",
@@ -192,8 +192,8 @@ func init() {
 		DesignRef: "DESIGN.md §3 EX-2/KE-1, §4 C15",
 	})
 	property(&Property{
-		ID:    "C03",
-		Rules: []string{"T10", "T-tree", "T-list", "T-object", "T-any", "AL-1"},
+		ID:      "C03",
+		Rules:   []string{"T10", "T-tree", "T-list", "T-object", "T-any", "AL-1"},
 		Explain: "T10: the additionalProperties dispatch — rule text to mode (any/true, false, @type, a schema type name, anything else rejected) and mode to validator (any value / reject the key / kind check for object, array, scalar / the named type's validators), exhaustive over the declared modes. T-tree: union semantics of candidate validators — every live candidate receives each lexeme and a position is rejected only when every candidate failed (1..3 candidates x all outcomes). T-object: an unknown key is offered to the key shortcuts, then to additionalProperties, else rejected. T-any: additionalProperties any swallows one whole value.",
 		Assume: []string{
 			"which validators a types list expands to (transitive expansion, de-duplication by name), allOf inheritance and the matching of a key against a shortcut's string type are not decided",
@@ -204,9 +204,9 @@ func init() {
 		DesignRef: "DESIGN.md §3 T10, §4 C03",
 	})
 	property(&Property{
-		ID:    "C04",
-		Rules: []string{"SH-1", "SH-visit", "T-allfail", "T-enum", "T7", "T4"},
-		Explain: "SH-1: the schema-check path (literalChecker/mixedChecker) and the document path (literalValidator) both go through validator.ValidateLiteralValue, LiteralValidator.Validate is invoked nowhere else (so Check and Validate cannot disagree on what a rule means), and the array checker gives the example array's own length to minItems and maxItems. SH-visit: checkNode has a case for every concrete schema.Node type, descends into every child, and CheckRootSchema covers the root and every added type. T-allfail: a literal example is rejected iff every candidate checker rejects it, with the candidate's own positioned error when alone. T7/T4: the kind matrix and the item-count comparators used on that path.",
+		ID:      "C04",
+		Rules:   []string{"SH-1", "SH-visit", "T-allfail", "T-enum", "T7", "T4", "SC-1"},
+		Explain: "SC-1: the per-node scratch maps from which checkLinksOfNode decides whether the kind of an example is among the kinds its types admit are emptied before every collection (or every insertion is undone), so the verdict for a node never uses what an earlier node admitted. SH-1: the schema-check path (literalChecker/mixedChecker) and the document path (literalValidator) both go through validator.ValidateLiteralValue, LiteralValidator.Validate is invoked nowhere else (so Check and Validate cannot disagree on what a rule means), and the array checker gives the example array's own length to minItems and maxItems. SH-visit: checkNode has a case for every concrete schema.Node type, descends into every child, and CheckRootSchema covers the root and every added type. T-allfail: a literal example is rejected iff every candidate checker rejects it, with the candidate's own positioned error when alone. T7/T4: the kind matrix and the item-count comparators used on that path.",
 		Assume: []string{
 			"that the shared validation is sufficient for every construct (e.g. array items typed by or) and the exact position reported for each violation are not decided",
 		},
@@ -216,8 +216,8 @@ func init() {
 		DesignRef: "DESIGN.md §3 SH-1/EX-1, §4 C04",
 	})
 	property(&Property{
-		ID:    "C09",
-		Rules: []string{"UC-1", "OR-2"},
+		ID:      "C09",
+		Rules:   []string{"UC-1", "OR-2"},
 		Explain: "UC-1: in the functions reachable from the used-type collector and from the link checker (callback-aware call graph), each carrier of a user-type reference is consulted: the types list (type shortcuts, or), the type rule, allOf, additionalProperties with a user type, key shortcuts and mixed shortcut values; allOf parents are resolved against the type table when inherited properties are copied.",
 		Assume: []string{
 			"the recursion decision (a least fix-point over arbitrary type graphs), termination of Check/Validate/Example, and exactness/de-duplication of UsedUserTypes are NOT decided by any rule here",
@@ -228,8 +228,8 @@ func init() {
 		DesignRef: "DESIGN.md §3 UC-1, §4 C09",
 	})
 	property(&Property{
-		ID:    "C18",
-		Rules: []string{"SH-2", "T-enum", "SA-E"},
+		ID:      "C18",
+		Rules:   []string{"SH-2", "T-enum", "SA-E"},
 		Explain: "SH-2: inline enum lists and named enum rules insert their items through the same constraint.NewEnumItem / (*Enum).Append (shared normalisation and duplicate rejection), and the enum-rule scanner's duplicate key uses the same normalisation steps. SA-E: the enum-rule scanner accepts exactly RFC 8259 arrays of scalars (exponents aside) with the reference event stream, so Values lists the literals in source order with exact spans.",
 		Assume: []string{
 			"the regex half (Go %q quoting when a regex type is turned into a schema, the third-party example generator, Len of the /P/ token) and the verdict equivalence itself are not decided",
